@@ -1212,3 +1212,89 @@ func funcResultOfCtor(x *ssa.Call, idx int) *ssa.Function {
 	}
 	return nil
 }
+
+// atomicOp: call is an operation of sync/atomic on an integer - directly, or through a thin accessor of a small type of the
+// module defined on that integer (func (f *atomicFlag) trySet() bool { return atomic.CompareAndSwapUint32((*uint32)(f), 0, 1) }):
+// the operation's name and its arguments in the caller's terms (the address is the accessor's receiver). ne0 says the accessor
+// hands back `result != 0` instead of the result itself (isSet()).
+func atomicOp(call *ssa.Call) (name string, args []ssa.Value, ne0 bool, ok bool) {
+	if call == nil {
+		return "", nil, false, false
+	}
+	if f := call.Call.StaticCallee(); f != nil && f.Pkg != nil && f.Pkg.Pkg.Path() == "sync/atomic" {
+		return f.Name(), call.Call.Args, false, true
+	}
+	cal := staticCallee(&call.Call)
+	if cal == nil || len(cal.Blocks) != 1 || cal.Signature.Recv() == nil || curCtx == nil || !curCtx.inModule(cal) {
+		return "", nil, false, false
+	}
+	var inner *ssa.Call
+	for _, in := range cal.Blocks[0].Instrs {
+		switch x := in.(type) {
+		case *ssa.Call:
+			if inner != nil {
+				return "", nil, false, false
+			}
+			inner = x
+		case *ssa.Convert, *ssa.ChangeType, *ssa.BinOp, *ssa.Return, *ssa.DebugRef:
+		default:
+			return "", nil, false, false
+		}
+	}
+	if inner == nil {
+		return "", nil, false, false
+	}
+	f := inner.Call.StaticCallee()
+	if f == nil || f.Pkg == nil || f.Pkg.Pkg.Path() != "sync/atomic" {
+		return "", nil, false, false
+	}
+	for _, a := range inner.Call.Args {
+		v := a
+		for {
+			if cv, isCv := v.(*ssa.Convert); isCv {
+				v = cv.X
+				continue
+			}
+			if ct, isCT := v.(*ssa.ChangeType); isCT {
+				v = ct.X
+				continue
+			}
+			break
+		}
+		switch y := v.(type) {
+		case *ssa.Const:
+			args = append(args, y)
+		case *ssa.Parameter:
+			idx := paramIndex(y)
+			if idx < 0 || idx >= len(call.Call.Args) {
+				return "", nil, false, false
+			}
+			args = append(args, call.Call.Args[idx])
+		default:
+			return "", nil, false, false
+		}
+	}
+	// what is handed back: the result (possibly converted), or result != 0
+	ret, isRet := cal.Blocks[0].Instrs[len(cal.Blocks[0].Instrs)-1].(*ssa.Return)
+	if !isRet || len(ret.Results) != 1 {
+		return "", nil, false, false
+	}
+	rv := ret.Results[0]
+	if bo, isBO := rv.(*ssa.BinOp); isBO {
+		if bo.Op != token.NEQ || !isConstInt(bo.Y, 0) || bo.X != ssa.Value(inner) {
+			return "", nil, false, false
+		}
+		return f.Name(), args, true, true
+	}
+	for {
+		if cv, isCv := rv.(*ssa.Convert); isCv {
+			rv = cv.X
+			continue
+		}
+		break
+	}
+	if rv != ssa.Value(inner) {
+		return "", nil, false, false
+	}
+	return f.Name(), args, false, true
+}
